@@ -76,11 +76,14 @@ def select(behs, k):
     return chosen
 
 
-def mk_job(jid, cat, hist, beh, unit):
+def mk_job(jid, cat, hist, beh, unit, free=False):
     w = beh["w"]
-    return {"id": jid, "cat": cat, "hist": hist, "nc": w["nc"], "unit": unit,
+    j = {"id": jid, "cat": cat, "hist": hist, "nc": w["nc"], "unit": unit,
             "nA": list(w["nA"]) if unit else [], "nH": list(w["nH"]) if unit else [],
             "ver0": w["ver0"], "drift": list(w["drift"]), "gone0": sorted(w["gone0"]), "steps": beh["steps"]}
+    if free:
+        j["free"] = True
+    return j
 
 
 def split_jobs(events):
